@@ -248,7 +248,8 @@ def rule_depth(ctx):
     ctx.check(not problems, "EX.DEPTH-TABLE", LF + "#unit-branches", fm, fm.node,
               "each key of DEPTH_UNITS (%s) selects its own conversion branch" % sorted(table), "; ".join(problems))
     # detection test in read(): every tabulated spelling is recognised; ASCII spellings in either case
-    fr = p.func(LF + ".read")
+    from rules.common import host_unit_detection
+    fr = host_unit_detection(p)
     test = None
     for s in walk_shallow(fr.node):
         if isinstance(s, ast.For) and "DEPTH_UNITS" in ast.unparse(s.iter):
